@@ -52,6 +52,11 @@ func genRandOps(r *Rng, w *world, n int) []randOp {
 	codes := [][]byte{nil, {0x00}, {0x60, 0x00, 0xf3}}
 	var ops []randOp
 	snaps := 0
+	if r.Chance(60) {
+		a := addr()
+		ops = append(ops, randOp{kind: "PrepareAccessList", prep: &prepArgs{Sender: addr(), Dst: &a, Precompiles: []common.Address{common.BytesToAddress([]byte{1}), common.BytesToAddress([]byte{3})},
+			List: ethtypes.AccessList{{Address: addr(), StorageKeys: []common.Hash{key()}}}}})
+	}
 	for i := 0; i < n; i++ {
 		switch k := r.Intn(100); {
 		case k < 4:
@@ -95,21 +100,26 @@ func genRandOps(r *Rng, w *world, n int) []randOp {
 		case k < 79:
 			ops = append(ops, randOp{kind: "Empty", a: addr()})
 		case k < 80:
-			a := addr()
-			p := &prepArgs{Sender: addr(), Precompiles: []common.Address{common.BytesToAddress([]byte{1}), common.BytesToAddress([]byte{3})},
-				List: ethtypes.AccessList{{Address: addr(), StorageKeys: []common.Hash{key()}}}}
-			if r.Bool() {
-				p.Dst = &a
+			// PrepareAccessList replaces the list object: go-ethereum's journal entries of earlier access-list changes would
+			// then be replayed against the new list (a panic the full-copy model does not have), so it is generated only as
+			// the first operation, where the real transition calls it
+			if i == 0 || len(ops) == 0 {
+				a := addr()
+				p := &prepArgs{Sender: addr(), Precompiles: []common.Address{common.BytesToAddress([]byte{1}), common.BytesToAddress([]byte{3})},
+					List: ethtypes.AccessList{{Address: addr(), StorageKeys: []common.Hash{key()}}}}
+				if r.Bool() {
+					p.Dst = &a
+				}
+				ops = append(ops, randOp{kind: "PrepareAccessList", prep: p})
 			}
-			ops = append(ops, randOp{kind: "PrepareAccessList", prep: p})
 		case k < 82:
-			ops = append(ops, randOp{kind: "AddressInAccessList", a: addr()})
+			ops = append(ops, randOp{kind: "AddressInAccessList", a: u[r.Intn(4)]})
 		case k < 84:
-			ops = append(ops, randOp{kind: "SlotInAccessList", a: addr(), k: key()})
+			ops = append(ops, randOp{kind: "SlotInAccessList", a: u[r.Intn(3)], k: key()})
 		case k < 86:
-			ops = append(ops, randOp{kind: "AddAddressToAccessList", a: addr()})
+			ops = append(ops, randOp{kind: "AddAddressToAccessList", a: u[r.Intn(4)]})
 		case k < 88:
-			ops = append(ops, randOp{kind: "AddSlotToAccessList", a: addr(), k: key()})
+			ops = append(ops, randOp{kind: "AddSlotToAccessList", a: u[r.Intn(3)], k: key()})
 		case k < 94:
 			ops = append(ops, randOp{kind: "Snapshot"})
 			snaps++
@@ -120,6 +130,21 @@ func genRandOps(r *Rng, w *world, n int) []randOp {
 			}
 		default:
 			ops = append(ops, randOp{kind: "AddLog", log: &ethtypes.Log{Address: addr(), Topics: []common.Hash{key()}, Data: []byte{byte(r.Intn(3))}}})
+		}
+		// look at what a mutating operation left behind, on the same address
+		if len(ops) > 0 && r.Chance(45) {
+			last := ops[len(ops)-1]
+			switch last.kind {
+			case "CreateAccount", "SubBalance", "AddBalance", "SetNonce", "SetCode", "SetState", "Suicide", "RevertToSnapshot":
+				a := last.a
+				if last.kind == "RevertToSnapshot" {
+					a = addr()
+				}
+				obsKinds := []string{"GetCommittedState", "GetState", "Empty", "Exist", "GetBalance", "GetNonce", "GetCodeHash", "GetCodeSize", "HasSuicided", "GetCommittedState"}
+				for j, m := 0, 1+r.Intn(3); j < m; j++ {
+					ops = append(ops, randOp{kind: obsKinds[r.Intn(len(obsKinds))], a: a, k: key()})
+				}
+			}
 		}
 	}
 	return ops
